@@ -5,9 +5,10 @@ CONSTANTS
   TamperSet = {"body", "nonce", "trunc", "nonce_ext", "nonce_short", "plainbody"}
   OuterSet = {"ok", "other", "init", "noid", "seq"}
   RawSet = {"notjson", "string", "emptyarr", "nomethod", "dup_init_last", "dup_init_first"}
-  RepInner = {"new_account", "init"}
+  RepInner = {"new_account", "init", "open"}
   FullProduct = FALSE
   Open0Set = {FALSE, TRUE}
+  ForeignSet = {TRUE}
 SPECIFICATION Spec
 INVARIANT TypeOK
 PROPERTY Prop_Gate
